@@ -152,7 +152,8 @@ func c03Prelude(c *Ctx) {
 		return
 	}
 	reZero := regexp.MustCompile(`#define\s+I(32|64)_(CLZ|CTZ)\(x\)\s+\(\(x\)\s*\?\s*__builtin_(clz|ctz)(ll|l)?\(x\)\s*:\s*(\d+)\)`)
-	reRot := regexp.MustCompile(`#define\s+I(32|64)_(ROTL|ROTR)\(x,\s*y\)\s+(ROTL|ROTR)\(x,\s*y,\s*(\d+)\)`)
+	// I32_ROTL(x, y) [(int32_t)]ROTL(<x or (uint32_t)(x)>, y, 31)
+	reRot := regexp.MustCompile(`#define\s+I(32|64)_(ROTL|ROTR)\(x,\s*y\)\s+\(*(?:\(int(?:32|64)_t\))?\s*(ROTL|ROTR)\((.*?),\s*y,\s*(\d+)\)`)
 	n := 0
 	for i, line := range strings.Split(string(src), "\n") {
 		loc := fmt.Sprintf("%s:%d", rel, i+1)
@@ -173,10 +174,15 @@ func c03Prelude(c *Ctx) {
 		}
 		if m := reRot.FindStringSubmatch(line); m != nil {
 			n++
-			w, op, base, mask := m[1], m[2], m[3], m[4]
+			w, op, base, xarg, mask := m[1], m[2], m[3], m[4], m[5]
 			want := map[string]string{"32": "31", "64": "63"}[w]
 			c.Check(mask == want && op == base, rule, "I"+w+"_"+op, loc, "mask "+want, fmt.Sprintf("I%s_%s expands to %s with count mask %s; the count of an i%s rotate is taken modulo %s (mask %s)", w, op, base, mask, w, w, want))
+			// the value is rotated as an unsigned number: the templates pass the signed register view, and a right
+			// shift of a negative signed value drags the sign bit over the bits that wrap round
+			n++
+			c.Check(strings.Contains(strings.ReplaceAll(xarg, " ", ""), "(uint"+w+"_t)"), rule, "I"+w+"_"+op+": unsigned operand", loc, "operand cast to uint"+w+"_t",
+				fmt.Sprintf("I%s_%s rotates `%s` without casting it to uint%s_t: the generated code passes the signed register view, the right shift inside the rotate is then arithmetic and i%s.%s of a value with the top bit set gets ones in the wrapped positions (i32.rotl 0x80000000 1 = 0xffffffff)", w, op, xarg, w, w, strings.ToLower(op)))
 		}
 	}
-	c.Min(rule, "bit-counting and rotate macros of the C prelude", n, 8)
+	c.Min(rule, "bit-counting and rotate macros of the C prelude", n, 12)
 }
